@@ -594,9 +594,10 @@ def run(tier, seed, only=None):
     # the stmt family too - except skeletons whose C01 obligation is a recorded finding with a semantic root cause (C
     # arithmetic, folded len(), ...): those are value differences, not vanished statements, and are reported under C01
     from ..common import load_findings
-    c01_known = {f.get("key") for f in load_findings() if f.get("property") == "C01" and f.get("status") == "known"}
+    c01_known = {"/".join(str(f.get("key")).split("/")[:2]) for f in load_findings()
+                 if f.get("property") == "C01" and f.get("status") == "known"}
     for oid, src in skeletons.stmt_family(tier):
-        if oid not in c01_known:
+        if "/".join(oid.split("/")[:2]) not in c01_known:      # (every placement of such a skeleton)
             items.append(("accounted", "accounted/" + oid, src))
     if only:
         items = [i for i in items if only in str(i[1])]
